@@ -44,10 +44,39 @@ def exact_inputs(angle, tol):
     return e, rn * ((1 << e) // rd), tn * ((1 << e) // td)
 
 
-def slack(angle):
-    """Absolute error (radians) that the three roundings before the loop can introduce:
-    |angle|/2pi periods times |fl(2pi) - 2pi| (2.5e-16), plus the roundings of the two divisions."""
-    return Fraction(abs(angle)) / (1 << 53) + Fraction(1, 1 << 48)
+U = Fraction(1, 1 << 53)   # unit round-off of binary64
+
+
+def float_model(angle, tol):
+    """Exact-rational check of the hypotheses of `C19.result_within_float` for this input: returns
+    (kk, list of violated hypotheses). kk = number of periods removed by the float `%`."""
+    P = Fraction(math.pi)
+    a_f = angle % (2 * math.pi)
+    a1 = Fraction(a_f)
+    A = Fraction(angle)
+    kk = Fraction(round((A - a1) / (2 * P)))      # the integer number of periods removed
+    bad = []
+    if abs(A - kk * 2 * P - a1) > U * 2 * P:        # exact for A >= 0; one rounded addition for A < 0
+        bad.append("float %%: |a' - (A - k 2P)| = %.3e above u*2P" % float(abs(A - kk * 2 * P - a1)))
+    if not (PI * (1 - U) <= P <= PI * (1 + U)):
+        bad.append("np.pi is not pi within relative 2^-53")
+    if not (0 <= a1 <= 2 * P):
+        bad.append("angle %% 2pi outside [0, 2 fl(pi)]")
+    rest = Fraction(a_f / math.pi)
+    eta = Fraction(1, 1 << 1075) * P                  # gradual underflow: absolute error of a denormal quotient
+    if abs(rest * P - a1) > U * a1 + eta:
+        bad.append("division angle/pi: error above 2^-53 relative + 2^-1075 absolute")
+    tol_pi = Fraction(tol / math.pi)
+    if tol_pi * P > Fraction(tol) * (1 + U):
+        bad.append("division tol/pi: relative error above 2^-53")
+    return kk, bad
+
+
+def slack(angle, tol=0.0):
+    """the explicit error term of `C19.result_within_float` beyond tol (radians):
+    4 tol u + 8 pi u (1+u) + 2 |kk| u pi"""
+    kk, _ = float_model(angle, tol if tol else 1e-4)
+    return 4 * Fraction(tol) * U + 8 * PI * U * (1 + U) + 2 * abs(kk) * U * PI
 
 
 def oracle(angle, tol, nds):
@@ -64,9 +93,9 @@ def oracle(angle, tol, nds):
     x = s * PI - Fraction(angle)
     k = round(x / TWO_PI)
     err = abs(x - k * TWO_PI)
-    bound = Fraction(tol) + slack(angle)
+    bound = Fraction(tol) + slack(angle, tol)
     if err > bound:
-        return "error %.3e rad > tol %.3e (+%.1e rounding slack)" % (float(err), tol, float(slack(angle)))
+        return "error %.3e rad > tol %.3e (+%.1e rounding slack)" % (float(err), tol, float(slack(angle, tol)))
     return None
 
 
@@ -109,6 +138,33 @@ def structured_angles():
     return out
 
 
+def default_tol():
+    """the tolerance the builder path uses: the default of get_angle_spec_from_float"""
+    import inspect
+    return inspect.signature(state_prep.get_angle_spec_from_float).parameters["tol"].default
+
+
+def near_tol_angles(tol):
+    """angles whose residual before the LAST step is just above the tolerance: anchor + tol*(1+eps) with eps up
+    to ~1/127 (the last step (n, d), n >= 127, is then itself smaller than tol although the residual is not),
+    plus residuals just below / far above for contrast"""
+    pi = math.pi
+    anchors = [0.0, pi / 4, pi / 2, -pi / 2, pi, 3 * pi / 2, 5 * pi, -3 * pi / 4, 7 * pi / 8, 2 * pi, 1.0, 0.3,
+               100.0, 13 * pi / 64, -pi / 256]
+    eps = [2e-5, 1e-4, 3e-4, 1e-3, 2e-3, 3e-3, 3.6e-3, 5e-3, 7e-3, 7.8e-3, 8e-3, 1e-2, -1e-3, -1e-5, 0.05, 0.5]
+    out = []
+    for a in anchors:
+        for e in eps:
+            out.append(a + tol * (1 + e))
+            out.append(a + tol * (1 + e) / 2 ** 3 + 2 ** -9 * pi)   # one step further down
+    return out
+
+
+def random_near_tol(rng, tol):
+    anchor = rng.choice([0.0, rng.randrange(-64, 64) * math.pi / 2 ** rng.randrange(0, 7), rng.uniform(-7, 7)])
+    return anchor + tol * (1 + rng.uniform(0, 1.2e-2))
+
+
 def random_angle(rng):
     c = rng.randrange(8)
     if c == 0:
@@ -135,6 +191,54 @@ def random_tol(rng):
 
 
 # ---------------------------------------------------------------- builder path
+
+
+AXES = "XYZ"
+
+
+class FastBuilder:
+    """One DebugConnection, one qubit (virtual id 1); `emit(axis, a)` calls the real `q.rot_<axis>(angle=a)` and
+    returns the pending commands the builder appended, canonicalised as the Lean driver prints them:
+    ["set", reg, value] / ["rot", axis index, reg, n, d]; ('raise', class) if the SDK raises."""
+
+    def __init__(self):
+        from netqasm.lang.ir import GenericInstr, ICmd
+        from netqasm.sdk.connection import BaseNetQASMConnection, DebugConnection
+        from netqasm.sdk.qubit import Qubit
+        from netqasm.sdk.shared_memory import SharedMemoryManager
+        SharedMemoryManager.reset_memories()
+        BaseNetQASMConnection._app_ids.clear()
+        DebugConnection.node_ids = {"A": 0}
+        self.ICmd, self.G = ICmd, GenericInstr
+        self.rots = {GenericInstr.ROT_X: 0, GenericInstr.ROT_Y: 1, GenericInstr.ROT_Z: 2}
+        self.conn = DebugConnection("A")
+        Qubit(self.conn)
+        self.q = Qubit(self.conn)
+        self.vq = self.q.qubit_id
+        self.conn.builder.subrt_pop_pending_subroutine()
+
+    def emit(self, axis, a):
+        try:
+            with np.errstate(all="ignore"):
+                getattr(self.q, "rot_" + axis)(angle=a)
+            sub = self.conn.builder.subrt_pop_pending_subroutine()
+        except Exception as e:  # noqa
+            try:
+                self.conn.builder.subrt_pop_pending_subroutine()
+            except Exception:  # noqa
+                pass
+            return "raise", type(e).__name__
+        out = []
+        for c in (sub.commands if sub is not None else []):
+            if not isinstance(c, self.ICmd):
+                out.append(["other", type(c).__name__])
+            elif c.instruction == self.G.SET:
+                out.append(["set", c.operands[0].index, c.operands[1]])
+            elif c.instruction in self.rots:
+                out.append(["rot", self.rots[c.instruction], c.operands[0].index, c.operands[1], c.operands[2]])
+            else:
+                out.append(["other", str(c.instruction)])
+        return "ok", out
 
 
 def builder_rotations(cases):
